@@ -213,7 +213,14 @@ class PFDLTreeVisitor(PFDLParserVisitor):
     def visitStruct_initialization(self, ctx: PFDLParser.Struct_initializationContext) -> Struct:
         json_string = ctx.json_object().getText()
 
-        struct = Struct.from_json(json_string, self.error_handler, ctx.json_object())
+        try:
+            struct = Struct.from_json(json_string, self.error_handler, ctx.json_object())
+        except ValueError:
+            # the lexer's strings / numbers are more liberal than JSON (e.g. unknown escapes)
+            self.error_handler.print_error(
+                "The Struct instantiation is not valid JSON", context=ctx.json_object()
+            )
+            struct = Struct()
         struct.name = ctx.STARTS_WITH_UPPER_C_STR().getText()
         struct.context = ctx
         return struct
